@@ -100,8 +100,6 @@ def read_rwms(path, prefix, version='2.0', names=None, **kwargs):
     else:
         rep_names = names
 
-    rep_names = sort_names(rep_names)
-
     print_err = 0
     if 'print_err' in kwargs:
         print_err = 1
